@@ -9,8 +9,10 @@ Messages are small ids (the harness hash-conses the marshalled bytes per request
 string, i.e. the encoding of a nil header). `M`: `-` (nil) or comma list of `hasVersion.major.minor.ttl.id`,
 `id` = id of the encoding of that meta header WITH its origins. `V`: `-` or comma list of `id/MS/OS/BS`,
 `id` = id of the encoding of that verification header with its origins, each signature `n` (nil) or
-`scheme.keyclass.signed` with keyclass `e` (empty) / `b` (not decodable) / `k` (decodable) and `signed` = the
-id of the one message this (key, scheme, signature) value is a signature of, `x` if of none. The model's
+`scheme.keyclass.signed.keyid` with keyclass `e` (empty) / `b` (not decodable) / `k` (decodable), `signed` = the
+id of the one message this (key, scheme, signature) value is a signature of, `x` if of none, and `keyid` a small
+number naming the key bytes (0 = empty). The observation ends with what `GetRequestAuthor` answers for the
+verification header: `a=<keyid>` or the failure. The model's
 `verify` is this table: a signature verifies over a message iff it is a signature of that message.
 The other keys of the line (the recipe the harness rebuilt the real request from) are ignored here.
 -/
@@ -23,17 +25,22 @@ def scEnc : Enc where
 
 def scScheme : Scheme where
   supported := fun sc => sc == 0 || sc == 1 || sc == 2
-  decodable := fun _ k => k == [1]
+  decodable := fun _ k => k.head? == some 1
   verify := fun _ _ msg sig => sig == msg
   n3 := fun msg invoc _ => invoc == msg
 
+/-- `scheme.keyclass.signed.keyid`: key bytes of the model are `[]` (empty), `[0, keyid]` (not decodable as an ECDSA
+key: garbage or an N3 verification script) or `[1, keyid]` (decodable) -/
 def parseSig (s : String) : Option (Option Sig) :=
   if s == "n" then some none
   else match s.splitOn "." with
-    | [sc, kc, sg] =>
-      match sc.toInt?, (if kc == "e" then some [] else if kc == "b" then some [0] else if kc == "k" then some [1] else none),
-            (if sg == "x" then some [] else sg.toNat?.map fun n => [n]) with
-      | some sc, some key, some sign => some (some { key := key, sign := sign, scheme := sc })
+    | [sc, kc, sg, kid] =>
+      match sc.toInt?, kid.toNat?, (if sg == "x" then some [] else sg.toNat?.map fun n => [n]) with
+      | some sc, some kid, some sign =>
+        let key : Option Bytes :=
+          if kc == "e" then (if kid == 0 then some [] else none)
+          else if kc == "b" then some [0, kid] else if kc == "k" then some [1, kid] else none
+        key.map fun key => some { key := key, sign := sign, scheme := sc }
       | _, _, _ => none
     | _ => none
 
@@ -67,6 +74,13 @@ def causeName : Cause → String
 def resName : Res → String
   | .ok => "=> ok" | .missingVerifyHdr => "=> missing-vh" | .wrongVerifyHdrNum => "=> wrong-num"
   | .layer d c => s!"=> layer d={d} {causeName c}" | .nilDeref => "=> nil-deref"
+
+def scAuthorName : Author → String
+  | .noHeader => "no-vh" | .noBodySig => "no-body-sig" | .badScheme => "bad-scheme" | .nilKey => "panic"
+  | .key s => match s.key with
+    | [_, kid] => toString kid
+    | [] => "0"
+    | _ => "?"
 
 def repStatusName : RepStatus → String
   | .ok => "ok" | .badObjMissing => "bad-obj-missing" | .badIdMissing => "bad-id-missing"
@@ -143,7 +157,7 @@ def sigchainStep (o : OpLine) : String :=
       | some "0" => some false | some "1" => some true | _ => none
     match api, trusted, o.nat? "B", (o.get? "M").bind (parseList parseMLayer), (o.get? "V").bind (parseList parseVLayer) with
     | some api, some tr, some b, some ms, some vs =>
-      resName (entry scScheme scEnc api tr { body := [b], metas := ms, vs := vs })
+      resName (entry scScheme scEnc api tr { body := [b], metas := ms, vs := vs }) ++ " a=" ++ scAuthorName (requestAuthor scScheme vs)
     | _, _, _, _, _ => "=> bad-op"
   | _ => "=> bad-op"
 
